@@ -107,8 +107,18 @@ Section Analysis.
       end
     end.
 
-  Definition callee_ctx_plain (g : fn) : actx_err + list (bytes * option bytes) :=
-    arg_ctx_ast H maxlen (fn_params g) 0 [] [].
+  (* a plain call g(e1..en): the arguments are not parsed; since fix F30 a parameter that the call binds explicitly (here:
+     the first n, positional) is unknown - not bound to its default - so that the call-site context is used *)
+  Fixpoint unbind (n : nat) (l : list (bytes * option bytes)) : list (bytes * option bytes) :=
+    match n, l with
+    | S m, (k, _) :: r => (k, None) :: unbind m r
+    | _, _ => l
+    end.
+  Definition callee_ctx_plain (g : fn) (nbound : nat) : actx_err + list (bytes * option bytes) :=
+    match arg_ctx_ast H maxlen (fn_params g) 0 [] [] with
+    | inr named => inr (unbind nbound named)
+    | inl e => inl e
+    end.
 
   Definition st3 := (list fi * list (bytes * bytes) * resolved)%type.
 
@@ -192,11 +202,11 @@ Section Analysis.
     end
   with ana_step (s : step) (lines : list bytes) (input_sig : bytes) (acc : st3) {struct s} : aerr + st3 :=
     let '(inters, loads, R) := acc in
-    let ana_plain_call (g : fn) (lines : list bytes) (line eline : nat) (input_sig : bytes) (acc : st3) : aerr + st3 :=
+    let ana_plain_call (g : fn) (nbound : nat) (lines : list bytes) (line eline : nat) (input_sig : bytes) (acc : st3) : aerr + st3 :=
       match call_ctx lines line eline input_sig inters loads with
       | inl e => inl e
       | inr c =>
-        match callee_ctx_plain g with
+        match callee_ctx_plain g nbound with
         | inl e => inl (ErrArg e)
         | inr named =>
           match ana g (named, Some c) R with
@@ -213,8 +223,8 @@ Section Analysis.
       | Some sg => inr (inters, rupdate p sg loads, R)
       end
     | SApply _ => inr acc
-    | SCall line eline g _ => ana_plain_call g lines line eline input_sig acc
-    | SRef line g _ => ana_plain_call g lines line line input_sig acc
+    | SCall line eline g args => ana_plain_call g (List.length args) lines line eline input_sig acc
+    | SRef line g _ => ana_plain_call g 0 lines line line input_sig acc
     | SKeep line eline p g pos kw =>
       match call_ctx lines line eline input_sig inters loads with
       | inl e => inl e
